@@ -127,7 +127,18 @@ func rulesSweep(c *Ctx, r *Report) {
 			"the piece's index list is the result of "+fname(keys)+" on the active-set map, taken at this breakpoint",
 			"the piece's index list is not a fresh key list of the active set taken at this breakpoint (it is "+newSymb(f).expr(st.Val).String()+"): a piece can report the set of another position")
 	})
-	r.floor("SNAPSHOT", nSnap, 1, "pieces built in NewIndex (at each breakpoint and after the last event; one site when a flush helper builds them)")
+	// places where a piece is closed: the stores themselves, or the calls of the stage that holds them
+	nPlaces := nSnap
+	if ni := c.fn("regions", "NewIndex"); ni != nil && f != ni {
+		calls := 0
+		for _, g := range c.stageFuncs(ni) {
+			for _, h := range family(g) {
+				calls += len(staticCallsTo(h, f))
+			}
+		}
+		nPlaces = nSnap * calls
+	}
+	r.floor("SNAPSHOT", nPlaces, 2, "places where a piece is closed in NewIndex (at each breakpoint and after the last event; calls of a flush helper count)")
 	// COORD
 	type fld struct {
 		t types.Type
